@@ -75,3 +75,47 @@ Definition flat_case (nl : netlist) (inss : list (list (Z * Z))) (outs : list Z)
   [b2z (ids_okb nl); b2z (shapeb true (flatten true nl)); b2z (shapeb false (flatten false nl))]
   :: map (fun v => map v outs)
          (fst (run (flatten true nl) 0 (flat_state nl (ginit nl [] [])) (map (flat_ins nl) (map ins_of inss)))).
+
+(* ---- structural tie: the gate TREE of every bit, unfolded down to input bits,
+   constants and register bits, in prefix code:
+     [0; w; i] bit i of wire w | [1; b] constant | 2 t = ~ | 3 t t = & | 4 = | | 5 = ^ | 6 = nand.
+   py/checks/C03.py extracts the same code from the REAL synthesized block (following
+   the w/s/c plumbing) and compares the two lists for equality. *)
+Fixpoint gser (g : gexp) : list Z :=
+  match g with
+  | GVar w i => [0; w; Z.of_nat i]
+  | GConst b => [1; b2z b]
+  | GNot a => 2 :: gser a
+  | GAnd a b => 3 :: gser a ++ gser b
+  | GOr a b => 4 :: gser a ++ gser b
+  | GXor a b => 5 :: gser a ++ gser b
+  | GNand a b => 6 :: gser a ++ gser b
+  end.
+
+Fixpoint gsubst (env : wid -> nat -> gexp) (g : gexp) : gexp :=
+  match g with
+  | GVar w i => env w i
+  | GConst b => GConst b
+  | GNot a => GNot (gsubst env a)
+  | GAnd a b => GAnd (gsubst env a) (gsubst env b)
+  | GOr a b => GOr (gsubst env a) (gsubst env b)
+  | GXor a b => GXor (gsubst env a) (gsubst env b)
+  | GNand a b => GNand (gsubst env a) (gsubst env b)
+  end.
+
+Definition struct_env0 (nl : netlist) : wid -> nat -> gexp :=
+  fun w i => match kind_of nl w with
+             | KConst c => GConst (negb (g_const_bit c (Z.of_nat i) =? 0))
+             | _ => GVar w i
+             end.
+
+Definition struct_step (nl : netlist) (env : wid -> nat -> gexp) (n : net) : wid -> nat -> gexp :=
+  match nop n with
+  | OpReg | OpMemWr _ | OpMemRd _ => env
+  | _ => let bits := map (gsubst env) (lower nl n) in
+         fun w i => if w =? ndest n then nth i bits (GConst false) else env w i
+  end.
+
+Definition struct_case (nl : netlist) (outs : list Z) : list (list (list Z)) :=
+  let env := fold_left (struct_step nl) (nets nl) (struct_env0 nl) in
+  map (fun o => map (fun i => gser (env o i)) (seq 0 (wnat nl o))) outs.
